@@ -186,12 +186,15 @@ def run_case(case, rec):
                                         rec.done([case['seed'], cfg, q, pos, kind], nontrivial=nontrivial,
                                                  sample={'config': cfg, 'query': q, 'pos': pos, 'kind': kind, 'result': sorted(want)})
                 # module-level functions use the default configuration
-                for q in qs[:10]:
-                    want = model.search('words', q, None, True, True, None)
-                    got = {f'{x.lexicon().specifier()}::{x.id}' for x in wn.words(q, lexicon=' '.join(sel))}
-                    rec.call('wn.words')
-                    if got != want:
-                        rec.violation('search:module-level', f'wn.words({q!r}, lexicon={sel}) = {sorted(got)}, model {sorted(want)}')
+                for q in qs[:12]:
+                    for kind, f in (('words', wn.words), ('senses', wn.senses), ('synsets', wn.synsets)):
+                        for pos in (None, r.choice(POS)):
+                            want = model.search(kind, q, pos, True, True, None)
+                            got = [f'{x.lexicon().specifier()}::{x.id}' for x in f(q, pos, lexicon=' '.join(sel))]
+                            rec.call('wn.' + kind)
+                            rec.event('search.compared')
+                            if set(got) != want or len(set(got)) != len(got):
+                                rec.violation('search:module-level', f'wn.{kind}({q!r}, {pos!r}, lexicon={sel}) = {sorted(got)}, model {sorted(want)}')
             rec.state(case['seed'])
     finally:
         env.rmtree(work)
